@@ -325,8 +325,11 @@ func init() {
 				if c.deaf[i] {
 					continue
 				}
-				if late := sinks[i].drain(0); len(late) > 0 {
-					fatal("datagram arrived after its call returned (sink %d): loopback sends are expected to be synchronous", i+1)
+				if late := sinks[i].drainN(0, 2*time.Millisecond); len(late) > 0 {
+					// every datagram of a Flush was waited for when the Flush returned: this one was put on the wire by no Flush
+					// (e.g. by Close)
+					tr.Emit(M{"e": "late", "sink": i + 1, "n": len(late), "len": len(late[0])})
+					events++
 				}
 			}
 			cases++
